@@ -402,6 +402,8 @@ def run_one(tape: Tape, tier: str, opts: dict) -> dict:
             if do_resume:
                 # (large registers: autosaving after every unit of work would record hundreds of snapshots of ~100 KB)
                 _, pol = C.clock_policy(tape, 11.0, tape.choice(["period", "every"] if not (case.get("large") or case.get("long")) else ["period"], "rclock"))
+                if case.get("large"):
+                    pol = lambda k: 12.0 if k % 40 == 39 else 0.003  # noqa: E731  (snapshots of 8-16 atoms are megabytes each)
             out = run_under(world, case, seeds, perm, autosave=do_resume, policy=pol, record=do_resume)
             evals += 1
             used = getattr(out, "perm_used", perm)
